@@ -57,12 +57,9 @@ pub fn is_name_valid(s: &str,is_vol: bool) -> bool {
 }
 
 pub fn file_name_to_string(fname: [u8;15],len: u8) -> String {
-    // UTF8 failure will cause panic
-    let copy = fname[0..len as usize].to_vec();
-    if let Ok(result) = String::from_utf8(copy) {
-        return result.trim_end().to_string();
-    }
-    panic!("encountered a bad file name");
+    // a stale or corrupted directory slot can hold any length and any bytes
+    let copy = fname[0..usize::min(len as usize,15)].to_vec();
+    String::from_utf8_lossy(&copy).trim_end().to_string()
 }
 
 pub fn vol_name_to_string(fname: [u8;7],len: u8) -> String {
